@@ -404,6 +404,10 @@ fn run_on_pty(env: &RealEnv, dir: &Path, args: &[String], cols: u16, rows: u16, 
         use std::os::unix::process::CommandExt;
         cmd.pre_exec(|| {
             libc::setsid();
+            libc::signal(libc::SIGINT, libc::SIG_DFL);
+            libc::signal(libc::SIGQUIT, libc::SIG_DFL);
+            libc::signal(libc::SIGHUP, libc::SIG_DFL);
+            libc::signal(libc::SIGPIPE, libc::SIG_DFL);
             Ok(())
         });
     }
